@@ -9,7 +9,10 @@ META = dict(
     bounds=dict(quick="dump_one of all 13 read/write formats on the C02 object menus (sizes <= 1000 atoms): a deep snapshot of every "
                       "attribute (array contents as terms, dictionary structure, identities of members) is equal before and "
                       "after the call for all symbolic values; the call returns the very object; write_input (gaussian, "
-                      "orca) likewise; wavefunction formats with allow_changes: see jobs wfn-*",
+                      "orca) likewise; wavefunction formats with allow_changes: see jobs wf-conversion; the five wavefunction "
+                      "writers on objects with three density matrices whose conventions need a pure sign change, a re-ordering "
+                      "or both (Cartesian and pure d; Cartesian f in thorough): two dumps in a row leave the argument "
+                      "unchanged and write the same file",
                 thorough="as C02 thorough"),
     outside=["objects outside the menus", "QCSchema extra dictionaries (job json-provenance)"],
     assumptions=c02.META["assumptions"],
@@ -124,6 +127,49 @@ def h_wf_conversion(ctx, fmt="wfn", case="aminusb"):
         ctx.oblige("converted-object:nelec-and-spinpol", ctx.eq(ret.nelec, data.nelec) and ctx.eq(ret.spinpol, data.spinpol), cls=cls)
 
 
+def h_wf_untouched(ctx, fmt="fchk", conv="flip:fchk", shellset="dpure"):
+    import numpy as np
+    """A wavefunction with density matrices in a convention that the writer must convert (pure sign change, re-ordering, both):
+    two dumps in a row leave every array of the caller unchanged and write the same file."""
+    import warnings
+    import iodata.api as api
+    from iodata.iodata import IOData
+    from iodata.utils import DumpError, PrepareDumpError
+    from harness import c01, rt, wfobj
+    from symx.stubs import stubbed
+    mods = rt._fmt_modules(fmt)
+    shells = c01.SHELLSETS[shellset]
+    nb = wfobj.nbasis_of(shells)
+    with stubbed(*mods):
+        grid = np.array([[0.1 * (i + 1) * (j + 1) - 0.05 * (i + j) ** 2 + (0.7 if i == j else 0.0) for j in range(nb)]
+                         for i in range(nb)])
+        rdms = {"scf": grid.copy(), "scf_spin": 0.25 * grid[::-1, ::-1].copy(), "post_scf_ao": 1.5 * grid.copy()}
+        kw = wfobj.make_wf(ctx, c01.ATOMS, shells, conv=conv, mo_kind="restricted", norb=2, occ="closed",
+                           extra_kw=dict(one_rdms=rdms))
+        data = IOData(**kw)
+        data.atcorenums
+        before = rt.snapshot(ctx, data)
+        texts = []
+        cls = f"{fmt},{conv},{shellset}"
+        for rep in (1, 2):
+            path = ctx.tmp_path(f"r{rep}." + c01.FILENAMES[fmt])
+            with warnings.catch_warnings(record=True):
+                warnings.simplefilter("always")
+                try:
+                    api.dump_one(data, path)
+                    err = None
+                except (PrepareDumpError, DumpError) as e:
+                    err = e
+            after = rt.snapshot(ctx, data)
+            for where, f in rt.snap_equal(ctx, before, after, "data"):
+                ctx.oblige("dump-leaves-argument-unchanged", f,
+                           cls=f"{cls},dump{rep}:{where.split('.')[1] if '.' in where else where}")
+            if err is not None:
+                return
+            texts.append(ctx.read_text(path))
+        ctx.oblige("second-dump-writes-the-same-file", rt._text_equal(ctx, texts[0], texts[1]), cls=cls)
+
+
 def jobs(tier):
     out = [j for j in c02.jobs(tier, prop="C09") if "twin" not in j["name"] and "touch" not in j["name"]
            and (tier != "quick" or j["params"].get("natom", 0) <= 1000)]
@@ -131,6 +177,12 @@ def jobs(tier):
         for case in ("plain", "aminusb", "aminusb-zero", "generalized", "SP"):
             out.append(job("C09", f"wf-conversion[{fmt},{case}]", "harness.c09", "h_wf_conversion", dict(fmt=fmt, case=case),
                            max_validate=4))
+    for fmt in ("fchk", "molden", "molekel", "wfn", "wfx"):
+        base = {"molekel": "molden", "wfx": "wfn"}.get(fmt, fmt)
+        for conv in ("flip:" + base, "partflip", "revflip"):
+            for shellset in ("dcart",) + (("dpure",) if fmt not in ("wfn", "wfx") else ()) + (("fcart",) if tier == "thorough" else ()):
+                out.append(job("C09", f"wf-untouched[{fmt},{conv},{shellset}]", "harness.c09", "h_wf_untouched",
+                               dict(fmt=fmt, conv=conv, shellset=shellset), max_validate=2))
     for fn in ("LiCl_STO4G_Gaussian_input.json", "H2O_CCSDprTpr_STO3G_output.json", "CuSCN_molecule_extra.json", "water_full.json"):
         out.append(job("C09", f"json-untouched[{fn}]", "harness.c09", "h_json_untouched", dict(fn=fn), max_validate=1))
     for p in ("gaussian", "orca"):
